@@ -58,6 +58,10 @@ Ltac gstep := first [ gen_skip |
   | |- good _ (bind (Ok _) _) => cbn [bind]
   | |- good _ (bind (Err _) _) => exact I
   | |- good _ (bind (Panic _) _) => exact I
+  | |- good _ (bind (err_at _ _ _) _) =>
+      eapply good_bind with (Q := fun _ => True); [apply good_err_at | intros]
+  | |- good _ (bind (err_from _ _ _) _) =>
+      eapply good_bind with (Q := fun _ => True); [apply good_err_from | intros]
   | |- good _ (bind (bind _ _) _) => rewrite bind_assoc
   | |- good _ (bind (if ?b then _ else _) _) => destruct b eqn:?
   | |- good _ (bind (match ?x with _ => _ end) _) => destruct x eqn:?
